@@ -75,7 +75,13 @@ func c18Cooperative(t *tape.Tape, tier Tier, res *Result) {
 		if mutated {
 			return
 		}
-		if d := fp0.Diff(sched.Take(shared)); d != "" {
+		now := sched.Take(shared)
+		if d := fp0.Diff(now); d != "" && fp0.Synchronised(now) {
+			// a lazily filled field guarded by its own Once / mutex / atomic:
+			// race-free and deterministic, hence within the property
+			res.count("synchronised-lazy-state", 1)
+			fp0 = now
+		} else if d != "" {
 			mutated = true
 			res.add(Violation{Prop: "C18", Oracle: "shared-value-mutated", Culprit: stablePath(d), Expected: "no write to the shared error by a read-only observer",
 				Observed: "changed at " + d + " while running " + last.Name, Where: fmt.Sprintf("%s value, after a step of task %d (%s) at yield site %d", state, last.ID, last.Name, site)})
